@@ -69,7 +69,7 @@ def make_executor():
                     projected = op.projected_mem if op is not None else None
                     rec = {"projected": projected, "peak": 0, "peak_task": None, "ntasks": 0, "first_peak": 0,
                            "op_name": node.get("op_name"), "reserved": getattr(op, "reserved_mem", None),
-                           "desc": describe_op(pipeline)}
+                           "desc": None}
                     persistent = 0
                     for m in pipeline.mappable:
                         if persistent >= 2:
@@ -90,6 +90,7 @@ def make_executor():
                         if p > rec["peak"]:
                             rec["peak"], rec["peak_task"] = p, (list(m) if isinstance(m, (list, tuple)) else repr(m)[:60])
                         rec["first_peak"] = max(rec["first_peak"], first)
+                    rec["desc"] = describe_op(pipeline, rec["peak_task"])
                     self.ops[name] = rec
             finally:
                 if started:
@@ -232,6 +233,7 @@ def catalogue():
     op("index_offset")(lambda a, b, c: a[1:, :])
     op("index_both")(lambda a, b, c: a[1:-1, 3:])
     op("index_step")(lambda a, b, c: a[::2, :])
+    op("index_step_offset")(lambda a, b, c: a[3::3, :])
     op("index_aligned")(lambda a, b, c: a[: a.chunksize[0], :])
     op("index_int_array")(lambda a, b, c: a[list(range(0, a.shape[0], 3)), :])
     op("take")(lambda a, b, c: xp.take(a, xp.asarray(list(range(a.shape[0] - 1, -1, -2)), spec=a.spec), axis=0))
@@ -295,6 +297,8 @@ def case_list():
     for name, e in C.items():
         geoms = e["geoms"] or GEOMS
         for g in geoms:
+            if g == "special":
+                continue
             for dt in DTYPES:
                 if applicable(name, e, g, dt):
                     out.append((name, g, dt))
@@ -338,14 +342,14 @@ def describe_keys(fargs):
     return d
 
 
-def describe_op(pipeline):
-    """Descriptor used by the classifier of the oracle: fused?, function names, key structure of the first task."""
+def describe_op(pipeline, task=None):
+    """Descriptor used by the classifier of the oracle: fused?, function names, key structure of `task` (default: the first)."""
     try:
         from cubed.primitive.blockwise import BlockwiseSpec, ChunkKey
         cfg = pipeline.config
         if not isinstance(cfg, BlockwiseSpec):
             return {"kind": "other", "pipeline": str(pipeline.name)}
-        first = next(iter(pipeline.mappable))
+        first = task if isinstance(task, (list, tuple)) else next(iter(pipeline.mappable))
         keys = describe_keys(cfg.back_key_function(ChunkKey("out", tuple(first))))
         srcs = {}
         for name, proxy in cfg.reads_map.items():
@@ -357,8 +361,16 @@ def describe_op(pipeline):
         outs = []
         for name, proxy in cfg.writes_map.items():
             outs.append(itemsize_of(proxy.array.dtype) * math.prod(proxy.chunks))
+        import functools
+        fkw = {}
+        f = cfg.function
+        while isinstance(f, functools.partial):
+            for k, v in (f.keywords or {}).items():
+                if callable(v):
+                    fkw[k] = _func_name(v)
+            f = f.func
         return {"kind": "blockwise", "pipeline": str(pipeline.name), "fused": str(pipeline.name).startswith("fused"),
-                "func": _func_name(cfg.function), "keys": keys, "src_chunk_bytes": srcs, "out_chunk_bytes": outs,
+                "func": _func_name(cfg.function), "func_kw": fkw, "keys": keys, "src_chunk_bytes": srcs, "out_chunk_bytes": outs,
                 "num_input_blocks": list(cfg.num_input_blocks)}
     except Exception as e:  # descriptor is best effort; never disturbs the measurement
         return {"kind": "error", "error": repr(e)[:200]}
@@ -417,7 +429,7 @@ def build(case):
                 write_input(p, shape, chunks, case["dtype"], case["compressor"], case.get("seed", 0) * 7 + i, case.get("data", "random"))
                 ins.append(cubed.from_zarr(p, spec=spec))
             else:
-                x = cubed.random.random(shape, chunks=chunks, spec=spec)
+                x = cubed.random.random(shape, chunks=chunks, spec=spec)   # float64: chunks are 8/itemsize times chunk_bytes
                 dt = case["dtype"]
                 if dt.startswith("int") or dt.startswith("uint"):
                     x = xp.astype(xp.multiply(x, 100.0), getattr(xp, dt))
@@ -440,9 +452,12 @@ def run_case(case):
     Returns dict(case=…, ops=[{name, op_name, projected, peak, ntasks, …}], error=None|str)."""
     _use_repo()
     tmp = None
+    import time
+    t0 = time.time()
     try:
         import cubed
         results, spec, tmp, shape, chunks = build(case)
+        t1 = time.time()
         ex = make_executor()
         cubed.store(results, (None,) * len(results), executor=ex, optimize_graph=bool(case["fuse"]))
         ops = []
@@ -450,7 +465,8 @@ def run_case(case):
             rec = dict(rec)
             rec["name"] = name
             ops.append(rec)
-        return {"case": case, "shape": list(shape), "chunks": list(chunks), "ops": ops, "error": None}
+        return {"case": case, "shape": list(shape), "chunks": list(chunks), "ops": ops, "error": None,
+                "t_build": round(t1 - t0, 2), "t_exec": round(time.time() - t1, 2), "pid": os.getpid()}
     except Exception as ex_:  # the catalogue entry could not be built / run: reported, not a C03 failure by itself
         import traceback
         return {"case": case, "ops": [], "error": "%s: %s" % (type(ex_).__name__, str(ex_)[:300]), "tb": traceback.format_exc()[-1200:]}
@@ -600,13 +616,23 @@ def plan_case(case):
             shutil.rmtree(tmp, ignore_errors=True)
 
 
+def _worker_init():
+    # one BLAS / OpenMP thread per worker: the workers already use all cores, and thread pools only add noise
+    for v in ("OMP_NUM_THREADS", "OPENBLAS_NUM_THREADS", "MKL_NUM_THREADS", "NUMEXPR_NUM_THREADS"):
+        os.environ[v] = "1"
+    _use_repo()
+    catalogue()
+
+
 def run_cases(cases, workers=4):
     """Run cases in `workers` fresh processes (spawn); order preserved."""
     if workers <= 1 or len(cases) <= 1:
         return [run_case(c) for c in cases]
     import multiprocessing as mp
     from concurrent.futures import ProcessPoolExecutor
-    with ProcessPoolExecutor(max_workers=workers, mp_context=mp.get_context("spawn")) as pool:
+    for v in ("OMP_NUM_THREADS", "OPENBLAS_NUM_THREADS", "MKL_NUM_THREADS", "NUMEXPR_NUM_THREADS"):
+        os.environ.setdefault(v, "1")       # inherited by the spawned workers before NumPy is imported there
+    with ProcessPoolExecutor(max_workers=min(workers, len(cases)), mp_context=mp.get_context("spawn"), initializer=_worker_init) as pool:
         return list(pool.map(run_case, cases, chunksize=1))
 
 
